@@ -459,6 +459,12 @@ def _build(ctx, dims, nv, nres, dead, exc, nets, cons, sparse, rev, nowrap,
         sc.nets = [Net(v[0], [v[0]]), Net(v[-1], [v[0]], 0)]
         if nv > 1:
             sc.nets.append(Net(v[0], [v[1]]))
+    elif nets == "repeat":
+        # a vertex listed twice in one net (repeated sink; source among its
+        # own sinks), each net first reached from another member
+        sc.nets = [Net(v[0], [v[1], v[1]]), Net(v[1], [v[1], v[0]])]
+        if nv > 2:
+            sc.nets.append(Net(v[2], [v[0], v[0], v[2]]))
     else:
         raise ValueError(nets)
 
@@ -1017,6 +1023,11 @@ def units(tier, seed):
         add(placer, "complete %dx%d exception at %s" % (dims + (exc,)),
             dims=dims, nv=2, nres=1, exc=exc, dead=dead, nets="chain",
             complete=True, split=4)
+    # nets that list a vertex twice, the vertex in a same-chip group
+    for placer in ("breadth_first", "hilbert", "rcm", "sa"):
+        add(placer, "repeated net members, same-chip group", dims=(2, 2),
+            nv=3, nres=1, nets="repeat", cons=("same", "resl"), hperm=(
+                placer != "sa"), split=5)
     # two placers, one after the other, on the same caller-owned objects
     add("hilbert", "then rcm on the same objects: group member as sink",
         dims=(2, 2), nv=3, nres=1, nets="fan", cons=("same12", "resl"),
